@@ -80,6 +80,8 @@ func classifyAtom(v ssa.Value, pol bool) (atom, bool) {
 	}
 	a := atom{Arg: k, Pol: pol, Val: v}
 	switch {
+	case isFromToElem(x):
+		a.Kind = "fromto=="
 	case isCallValueTo(x, "move.(Move).From"):
 		a.Kind = "from=="
 	case isCallValueTo(x, "move.(Move).To"):
@@ -290,6 +292,10 @@ func c02R1(c *Ctx, p *Prog) {
 				}
 				a, ok := classifyAtom(e.Cond, e.True)
 				switch {
+				case ok && a.Kind == "fromto==" && a.Pol:
+					// the tested value ranges over {From(), To()}: counts as both tests
+					froms = append(froms, a.Arg)
+					tos = append(tos, a.Arg)
 				case ok && a.Kind == "from==" && a.Pol:
 					froms = append(froms, a.Arg)
 				case ok && a.Kind == "to==" && a.Pol:
@@ -1161,4 +1167,57 @@ func init() {
 			Old: "\t\td.board = board.StartPos()\n\t\tif len(args) > 2 && args[1] == \"moves\" {", New: "\t\tif len(args) <= 2 || d.board == nil {\n\t\t\td.board = board.StartPos()\n\t\t}\n\t\tif len(args) > 2 && args[1] == \"moves\" {",
 			Expect: "C02.R8/handlePosition#applyMoves@1"},
 	)
+}
+
+// isFromToElem: v is an element (at a non-constant index) of a two-element
+// array literal {m.From(), m.To()} — the loop form `for _, sq := range [...]Square{m.From(), m.To()}`.
+func isFromToElem(v ssa.Value) bool {
+	var arr ssa.Value
+	switch x := v.(type) {
+	case *ssa.Index:
+		if _, isc := constOf(x.Index); isc {
+			return false
+		}
+		if l, ok := x.X.(*ssa.UnOp); ok && l.Op == token.MUL {
+			arr = l.X
+		}
+	case *ssa.UnOp:
+		if x.Op != token.MUL {
+			return false
+		}
+		if ia, ok := x.X.(*ssa.IndexAddr); ok {
+			if _, isc := constOf(ia.Index); isc {
+				return false
+			}
+			arr = ia.X
+		}
+	}
+	al, ok := arr.(*ssa.Alloc)
+	if !ok || al.Referrers() == nil {
+		return false
+	}
+	at, ok := al.Type().Underlying().(*types.Pointer).Elem().Underlying().(*types.Array)
+	if !ok || at.Len() != 2 {
+		return false
+	}
+	var from, to, other int
+	for _, r := range *al.Referrers() {
+		ia, ok := r.(*ssa.IndexAddr)
+		if !ok || ia.Referrers() == nil {
+			continue
+		}
+		for _, rr := range *ia.Referrers() {
+			if st, ok := rr.(*ssa.Store); ok && st.Addr == ssa.Value(ia) {
+				switch {
+				case isCallValueTo(stripConv(st.Val), "move.(Move).From"):
+					from++
+				case isCallValueTo(stripConv(st.Val), "move.(Move).To"):
+					to++
+				default:
+					other++
+				}
+			}
+		}
+	}
+	return from == 1 && to == 1 && other == 0
 }
